@@ -192,6 +192,269 @@ theorem crossover_id (toc t : Rat) (h1 : t - toc < 302400) (h2 : toc - t < 30240
   simp only [Rat.intCast_zero, Rat.zero_mul]
   grind
 
+/-! ## 5. All columns have equal length -/
+
+/-- length of column `k` (0 when the column does not exist yet) -/
+def len (d : Cols) (k : String) : Nat := ((col d k).map List.length).getD 0
+
+theorem len_append (d : Cols) (k : String) (v : Cell) (k' : String) :
+    len (append d k v) k' = len d k' + (if k' = k then 1 else 0) := by
+  unfold len
+  induction d with
+  | nil =>
+    by_cases h : k = k'
+    · subst h; simp [append, col]
+    · have h' : ¬ k' = k := fun e => h e.symm
+      simp [append, col, h, h']
+  | cons p rest ih =>
+    obtain ⟨kk, vs⟩ := p
+    by_cases hk : kk = k
+    · subst hk
+      by_cases h : kk = k'
+      · subst h; simp [append, col]
+      · have h' : ¬ k' = kk := fun e => h e.symm
+        simp [append, col, h, h']
+    · by_cases h : kk = k'
+      · subst h
+        have h' : ¬ kk = k := hk
+        simp [append, col, hk]
+      · simp only [append, hk, if_false, col, h]
+        exact ih
+
+/-- appending a run of (key, value) pairs: every column grows by the number of times its key occurs -/
+theorem len_foldl_append (kvs : List (String × Cell)) : ∀ (d : Cols) (k' : String),
+    len (kvs.foldl (fun d kv => append d kv.1 kv.2) d) k' = len d k' + (kvs.map (·.1)).count k' := by
+  induction kvs with
+  | nil => intro d k'; simp
+  | cons kv rest ih =>
+    intro d k'
+    simp only [List.foldl_cons, List.map_cons]
+    rw [ih, len_append, List.count_cons]
+    by_cases h : k' = kv.1
+    · subst h; simp; omega
+    · have h' : ¬ (kv.1 == k') = true := by simpa using fun e => h e.symm
+      simp [h, h']
+
+/-- the fields of one orbit line, appended through `_float`: if it succeeds, every column grows by the
+number of times its name occurs in the line's layout -/
+theorem len_addLine (ld : LineDef) (line : Str) : ∀ (d d' : Cols), addLine ld d line = some d' →
+    ∀ k', len d' k' = len d k' + (ld.fields.map (·.name)).count k' := by
+  have hnames : (lineValues ld line).map (·.1) = ld.fields.map (·.name) := by
+    simp [lineValues, sliceAll, List.map_map, Function.comp_def]
+  unfold addLine
+  rw [← hnames]
+  generalize lineValues ld line = vs
+  induction vs with
+  | nil => intro d d' h k'; simp only [List.foldlM_nil, Option.pure_def, Option.some.injEq] at h; subst h; simp
+  | cons kt rest ih =>
+    intro d d' h k'
+    simp only [List.foldlM_cons, Option.bind_eq_bind] at h
+    cases hq : floatField kt.2 with
+    | none => simp [hq] at h
+    | some q =>
+      simp only [hq, Option.map_some, Option.bind_some] at h
+      rw [ih _ _ h k', len_append, List.map_cons, List.count_cons]
+      by_cases hk : k' = kt.1
+      · subst hk; simp; omega
+      · have h' : ¬ (kt.1 == k') = true := by simpa using fun e => hk e.symm
+        simp [hk, h']
+
+/-- names appended by the orbit lines `(i, line)` (record line number `i + 2`) -/
+def keysOfLines (T : Tables) (nl : List (Nat × Str)) : List String :=
+  nl.flatMap fun il => match T.lines.find? (fun (l : LineDef) => l.num = il.1 + 2) with
+    | some ld => ld.fields.map (·.name)
+    | Option.none => []
+
+theorem len_addLines (T : Tables) (nl : List (Nat × Str)) : ∀ (d d' : Cols), addLines T d nl = some d' →
+    ∀ k', len d' k' = len d k' + (keysOfLines T nl).count k' := by
+  unfold addLines
+  induction nl with
+  | nil => intro d d' h k'; simp only [List.foldlM_nil, Option.pure_def, Option.some.injEq] at h; subst h; simp [keysOfLines]
+  | cons il rest ih =>
+    intro d d' h k'
+    simp only [List.foldlM_cons, Option.bind_eq_bind] at h
+    cases hfind : T.lines.find? (fun (l : LineDef) => l.num = il.1 + 2) with
+    | none =>
+      simp only [hfind, Option.bind_some] at h
+      rw [ih _ _ h k']
+      simp [keysOfLines, hfind]
+    | some ld =>
+      simp only [hfind] at h
+      cases hline : addLine ld d il.2 with
+      | none => simp [hline] at h
+      | some d1 =>
+        simp only [hline, Option.bind_some] at h
+        rw [ih _ _ h k', len_addLine ld il.2 d d1 hline k']
+        simp only [keysOfLines, List.flatMap_cons, hfind, List.count_append]
+        omega
+
+theorem len_addEpoch (d : Cols) (e : Epoch) (clock : List (String × Rat)) (k' : String) :
+    len (addEpoch d e clock) k' = len d k' + (["system", "satellite"] ++ clock.map (·.1)).count k' := by
+  unfold addEpoch
+  have := len_foldl_append (clock.map fun nq => (nq.1, Cell.num nq.2))
+    (append (append d "system" (.str e.system)) "satellite" (.str e.sat)) k'
+  simp only [List.foldl_map, List.map_map, Function.comp_def] at this
+  rw [this, len_append, len_append]
+  have e1 : (["system", "satellite"] ++ clock.map (·.1)).count k' =
+      (clock.map (·.1)).count k' + (if k' = "satellite" then 1 else 0) + (if k' = "system" then 1 else 0) := by
+    simp only [List.cons_append, List.nil_append, List.count_cons, beq_iff_eq]
+    have a1 : ("system" = k') = (k' = "system") := propext ⟨Eq.symm, Eq.symm⟩
+    have a2 : ("satellite" = k') = (k' = "satellite") := propext ⟨Eq.symm, Eq.symm⟩
+    simp only [a1, a2]
+  rw [e1]
+  omega
+
+/-- every name a kept record appends: the epoch line's columns, then the orbit lines' -/
+def recordKeys (T : Tables) (clock : List String) (nl : List (Nat × Str)) : List String :=
+  ["system", "satellite"] ++ clock ++ keysOfLines T nl
+
+/-- **one record, one value per column**: a record either leaves the columns untouched (GLONASS/SBAS,
+stray header line) or makes every column grow by the number of times its name occurs among the
+record's field names -/
+theorem record_appends (T : Tables) (v2 : Option Str) (st st' : St) (l1 : Str) (rest : List Str)
+    (h : addRecord T v2 st (l1 :: rest) = some st') :
+    st' = st ∨ ∃ clock : List String, ∀ k', len st'.data k' = len st.data k' +
+      (recordKeys T clock ((List.range rest.length).zip rest)).count k' := by
+  unfold addRecord at h
+  cases hfind : T.lines.find? (fun (l : LineDef) => l.num = 1) with
+  | none => simp only [hfind, Option.some.injEq] at h; exact Or.inl h.symm
+  | some ld1 =>
+    simp only [hfind] at h
+    cases hhead : headOf v2 (lineValues ld1 l1) with
+    | none => simp [hhead] at h
+    | some hd =>
+      simp only [hhead] at h
+      cases hd with
+      | skipHeaderLine => simp only [Option.some.injEq] at h; exact Or.inl h.symm
+      | skipSystem => simp only [Option.some.injEq] at h; exact Or.inl h.symm
+      | ok e clock =>
+        right
+        simp only at h
+        obtain ⟨d, hd, hst⟩ := Option.map_eq_some_iff.mp h
+        subst hst
+        refine ⟨clock.map (·.1), fun k' => ?_⟩
+        have hl := len_addLines T ((List.range rest.length).zip rest) _ d hd k'
+        simp only
+        rw [hl, len_addEpoch]
+        simp only [recordKeys, List.count_append]
+        omega
+
+/-- the names of orbit lines `2 … n+1` of the table -/
+def keysOfIdx (T : Tables) (n : Nat) : List String :=
+  (List.range n).flatMap fun i => match T.lines.find? (fun (l : LineDef) => l.num = i + 2) with
+    | some ld => ld.fields.map (·.name)
+    | Option.none => []
+
+theorem keysOfLines_eq (T : Tables) (nl : List (Nat × Str)) :
+    keysOfLines T nl = (nl.map (·.1)).flatMap fun i => match T.lines.find? (fun (l : LineDef) => l.num = i + 2) with
+      | some ld => ld.fields.map (·.name)
+      | Option.none => [] := by
+  simp [keysOfLines, List.flatMap_map]
+
+theorem keysOfLines_zip (T : Tables) (rest : List Str) :
+    keysOfLines T ((List.range rest.length).zip rest) = keysOfIdx T rest.length := by
+  rw [keysOfLines_eq, List.map_fst_zip (by simp)]
+  rfl
+
+/-- all 38 column names one record feeds, as the table gives them -/
+def recordNames (T : Tables) : List String := ["system", "satellite"] ++ clockNames ++ keysOfIdx T 7
+
+def nodupL : List String → Bool
+  | [] => true
+  | a :: rest => !rest.contains a && nodupL rest
+
+theorem count_of_nodupL (l : List String) (h : nodupL l = true) (k : String) :
+    l.count k = if k ∈ l then 1 else 0 := by
+  induction l with
+  | nil => simp
+  | cons a rest ih =>
+    simp only [nodupL, Bool.and_eq_true, Bool.not_eq_eq_eq_not, Bool.not_true] at h
+    have hna : a ∉ rest := by simpa using h.1
+    rw [List.count_cons, ih h.2]
+    by_cases hk : k = a
+    · subst hk; simp [hna]
+    · have h' : ¬ (a == k) = true := by simpa using fun e => hk e.symm
+      simp [hk, h']
+
+/-- the record's names are pairwise distinct in each of the three parsers' tables -/
+theorem record_names_distinct :
+    nodupL (recordNames v3) = true ∧ nodupL (recordNames v2) = true ∧ nodupL (recordNames v212) = true := by
+  decide +kernel
+
+theorem mapM_names (f : String → Option Rat) (names : List String) (r : List (String × Rat))
+    (h : names.mapM (fun n => (f n).map fun q => (n, q)) = some r) : r.map (·.1) = names := by
+  induction names generalizing r with
+  | nil => simp at h; subst h; rfl
+  | cons n ns ih =>
+    simp only [List.mapM_cons, Option.bind_eq_bind, Option.pure_def] at h
+    cases hf : f n with
+    | none => simp [hf] at h
+    | some q =>
+      simp only [hf, Option.map_some, Option.bind_some] at h
+      cases hr : ns.mapM (fun n => (f n).map fun q => (n, q)) with
+      | none => simp [hr] at h
+      | some r' =>
+        simp only [hr, Option.bind_some, Option.some.injEq] at h
+        subst h
+        simp [ih r' hr]
+
+/-- the clock columns a kept epoch line feeds are exactly `clockNames` -/
+theorem head_clock_names (v2 : Option Str) (vs : List (String × Str)) (e : Epoch) (clock : List (String × Rat))
+    (h : headOf v2 vs = some (.ok e clock)) : clock.map (·.1) = clockNames := by
+  have key : ∀ (oe : Option Epoch), (oe.bind fun e' => (clockOf vs).map fun cl => Head.ok e' cl) = some (.ok e clock) →
+      clock.map (·.1) = clockNames := by
+    intro oe hb
+    obtain ⟨e', _, h2⟩ := Option.bind_eq_some_iff.mp hb
+    obtain ⟨cl, hcl, h3⟩ := Option.map_eq_some_iff.mp h2
+    have : cl = clock := by injection h3
+    subst this
+    exact mapM_names _ _ _ hcl
+  cases v2 with
+  | none =>
+    simp only [headOf, head3] at h
+    split at h
+    · simp at h
+    · split at h
+      · simp at h
+      · exact key _ h
+  | some s =>
+    simp only [headOf, head2] at h
+    split at h
+    · simp at h
+    · exact key _ h
+
+/-- **all columns have equal length**: a supported record with its seven orbit lines adds exactly one
+value to each of the record's 38 columns and none to any other; a skipped record (GLONASS, SBAS) adds
+nothing — so columns that were equally long stay equally long, in each of the three parsers -/
+theorem columns_equal_length (T : Tables) (hT : nodupL (recordNames T) = true)
+    (v2 : Option Str) (st st' : St) (l1 : Str) (rest : List Str) (hrest : rest.length = 7)
+    (h : addRecord T v2 st (l1 :: rest) = some st') :
+    st' = st ∨ ∀ k, len st'.data k = len st.data k + (if k ∈ recordNames T then 1 else 0) := by
+  unfold addRecord at h
+  cases hfind : T.lines.find? (fun (l : LineDef) => l.num = 1) with
+  | none => simp only [hfind, Option.some.injEq] at h; exact Or.inl h.symm
+  | some ld1 =>
+    simp only [hfind] at h
+    cases hhead : headOf v2 (lineValues ld1 l1) with
+    | none => simp [hhead] at h
+    | some hd =>
+      simp only [hhead] at h
+      cases hd with
+      | skipHeaderLine => simp only [Option.some.injEq] at h; exact Or.inl h.symm
+      | skipSystem => simp only [Option.some.injEq] at h; exact Or.inl h.symm
+      | ok e clock =>
+        right
+        simp only at h
+        obtain ⟨d, hd, hst⟩ := Option.map_eq_some_iff.mp h
+        subst hst
+        intro k
+        have hl := len_addLines T ((List.range rest.length).zip rest) _ d hd k
+        have hc := head_clock_names v2 _ e clock hhead
+        simp only
+        rw [hl, len_addEpoch, keysOfLines_zip, hrest, hc, ← count_of_nodupL _ hT k]
+        simp only [recordNames, List.count_append]
+        omega
+
 end Midgard.Props.C12
 
 #print axioms Midgard.Props.C12.layouts_sorted
@@ -208,3 +471,16 @@ end Midgard.Props.C12
 #print axioms Midgard.Props.C12.roundHalfEven_close
 #print axioms Midgard.Props.C12.crossover
 #print axioms Midgard.Props.C12.crossover_id
+#print axioms Midgard.Props.C12.len_append
+#print axioms Midgard.Props.C12.len_foldl_append
+#print axioms Midgard.Props.C12.len_addLine
+#print axioms Midgard.Props.C12.len_addLines
+#print axioms Midgard.Props.C12.len_addEpoch
+#print axioms Midgard.Props.C12.record_appends
+#print axioms Midgard.Props.C12.keysOfLines_eq
+#print axioms Midgard.Props.C12.keysOfLines_zip
+#print axioms Midgard.Props.C12.count_of_nodupL
+#print axioms Midgard.Props.C12.record_names_distinct
+#print axioms Midgard.Props.C12.mapM_names
+#print axioms Midgard.Props.C12.head_clock_names
+#print axioms Midgard.Props.C12.columns_equal_length
